@@ -168,9 +168,8 @@ class LiftSubgraphInitializersToMainGraphPass(ir.passes.InPlacePass):
             for value in (*graph.inputs, *(o for node in graph for o in node.outputs))
             if value.name
         }
-        for graph in model.graphs():
-            if graph is model.graph:
-                continue
+        subgraphs = [graph for graph in model.graphs() if graph is not model.graph]
+        for graph in subgraphs:
             for name in tuple(graph.initializers):
                 assert name is not None
                 initializer = graph.initializers[name]
@@ -198,6 +197,9 @@ class LiftSubgraphInitializersToMainGraphPass(ir.passes.InPlacePass):
                     or new_name in main_graph_output_names
                     or new_name in main_graph_input_names
                     or new_name in subgraph_value_names
+                    # Initializers that stay in a subgraph (or are not lifted yet) would
+                    # shadow the lifted one there
+                    or any(new_name in subgraph.initializers for subgraph in subgraphs)
                 ):
                     if name in registered_initializer_names:
                         registered_initializer_names[name] += 1
